@@ -27,6 +27,11 @@ type SeqCfg struct {
 	ContinueAfterFail bool
 	// PlainTest: test values are spelled exactly like the document (v4 domain).
 	PlainTest bool
+	// origDoc / origText: the document as it was given (set by GenSeq). Some test operations
+	// compare a location with the text it had in the input, byte for byte, although the value
+	// has changed since: whatever an implementation keeps of the original text must not decide.
+	origDoc  *jr.Value
+	origText string
 }
 
 var allKinds = []string{"add", "remove", "replace", "move", "copy", "test"}
@@ -114,6 +119,25 @@ func GenOp(r *rand.Rand, e *ref.Evaluator, cfg *SeqCfg) (ref.Op, string) {
 		}
 	case "test":
 		cur := valueAt(e, op.Path)
+		if cfg.origDoc != nil && r.Intn(6) == 0 {
+			// a location whose value differs from what the input held there
+			var cands []string
+			for _, pt := range res {
+				if ov := cfg.origDoc.Resolve(pt); ov != nil && (ov.K == jr.Obj || ov.K == jr.Arr) {
+					if cv := valueAt(e, pt); cv != nil && !jr.Equal(ov, cv, jr.EqMode{}) {
+						cands = append(cands, pt)
+					}
+				}
+			}
+			if len(cands) > 0 {
+				op.Path = cands[r.Intn(len(cands))]
+				ov := cfg.origDoc.Resolve(op.Path)
+				valText = cfg.origText[ov.Off:ov.End]
+				op.Value = mustParse(valText)
+				op.HasValue = true
+				return op, OpText(op.Kind, op.Path, op.From, valText, true)
+			}
+		}
 		switch n := r.Intn(10); {
 		case cur != nil && n < 5:
 			if cfg.PlainTest {
@@ -150,6 +174,9 @@ func GenSeq(r *rand.Rand, cfg *SeqCfg, o ref.Opts) *SeqCase {
 		n += r.Intn(cfg.MaxOps - cfg.MinOps + 1)
 	}
 	e := ref.New(sc.Doc, o)
+	lc := *cfg
+	lc.origDoc, lc.origText = sc.Doc, sc.DocText
+	cfg = &lc
 	for i := 0; i < n; i++ {
 		op, text := GenOp(r, e, cfg)
 		sc.Ops = append(sc.Ops, op)
